@@ -813,16 +813,12 @@ func (s *BaseNodeService) processMessage(message storage.Message) (*types.Operat
 				}
 			}
 			//if we have an error during signing procedure, start a new signing procedure
-			_, fsmDump, err := fsmInstance.Do(sif.EventSigningRestart, requests.DefaultRequest{
+			// (in memory: the round is saved together with the effect of the message itself, so
+			// that a message which is then refused leaves the stored round as it was)
+			if _, _, err := fsmInstance.Do(sif.EventSigningRestart, requests.DefaultRequest{
 				CreatedAt: time.Now(),
-			})
-			if err != nil {
+			}); err != nil {
 				return nil, fmt.Errorf("failed to Do operation in FSM: %w", err)
-			}
-
-			if err := s.fsmService.SaveFSM(message.DkgRoundID, fsmDump); err != nil {
-				return nil, fmt.Errorf("failed to SaveFSM: %w", err)
-
 			}
 		}
 	}
@@ -841,15 +837,11 @@ func (s *BaseNodeService) processMessage(message storage.Message) (*types.Operat
 				fsmInstance.FSMDump().Payload.SigningProposalPayload.BatchID)
 
 			//if we have an error during signing procedure, start a new signing procedure
-			_, fsmDump, err := fsmInstance.Do(sif.EventSigningRestart, requests.DefaultRequest{
+			// (in memory, see above)
+			if _, _, err := fsmInstance.Do(sif.EventSigningRestart, requests.DefaultRequest{
 				CreatedAt: time.Now(),
-			})
-			if err != nil {
+			}); err != nil {
 				return nil, fmt.Errorf("failed to Do operation in FSM: %w", err)
-			}
-
-			if err := s.fsmService.SaveFSM(message.DkgRoundID, fsmDump); err != nil {
-				return nil, fmt.Errorf("failed to SaveFSM: %w", err)
 			}
 		}
 	}
